@@ -71,10 +71,13 @@ def register(R):
                         z3.ForAll([j], z3.Implies(z3.And(0 <= j, j < c.n), x.arr[y.n + j] == c.arr[j]))))
 
   t = dict(self='IteratorQueue')
-  R.add(Contract(f'{ITER}::IteratorQueue.enqueue_done', PROPS, types=t, ret='bool', ensures=['result == enq_done(self)']))
+  R.add(Contract(f'{ITER}::IteratorQueue.enqueue_done', PROPS, types=t, ret='bool', ensures=['result == enq_done(self)'],
+                 cond_tests={'return': ['stop']}))
 
   R.add(Contract(
       f'{ITER}::IteratorQueue.get_nowait', PROPS, types=t, ret='obj', setup=_hold('_dequeue_lock'),
+      # raising Empty means: nothing queued AND producers still running - both wake-up conditions of a consumer were tested
+      cond_tests={'queue.Empty': ['content', 'stop']},
       modifies=['self._queue', 'self._exhausted', 'events:self._dequeue_lock'],
       requires=INV,
       ensures=INV + [
@@ -153,8 +156,10 @@ def register(R):
 
   def _blocking(it, env):
     it.ghost['__on_wait__'] = _shared_state_changes(env['self'])
-    for l in ('_dequeue_lock', '_enqueue_lock'):       # monitor rule for condition waits (no lost wake-up)
-      env['self'].f[l].recheck = True
+    # monitor rule for condition waits (no lost wake-up): a waiter is woken by a change of the queue content or by
+    # the stop / failure of the producers; both must have been re-tested after the lock was last released
+    for l in ('_dequeue_lock', '_enqueue_lock'):
+      env['self'].f[l].recheck = ('content', 'stop')
     if 'removed' in it.ghost:
       it.assume(it.ghost['removed'].seq.n == 0)
 
